@@ -55,3 +55,6 @@ func (fm *FracManager) VerifStates() []string {
 func (cm *CacheMaintainer) VerifCleaners() ([]*cache.Cleaner, []string) {
 	return cm.cleaners, cm.cleanerLabels
 }
+
+// VerifBusyWorkers is the number of search worker slots that are taken right now.
+func (s *Searcher) VerifBusyWorkers() int { return len(s.sem) }
